@@ -58,7 +58,7 @@ class P:
             "targets that are not names, failing statements at random positions) from random initial contexts, as many mostly-valid programs "
             "(numbers only, no failing operation, assignments nested where their None is compared and discarded - also to the target of "
             "the enclosing compound assignment), plus the exhaustive "
-            "product 11 operators x 14x14 value pairs. Oracle: a reference interpreter written from the property text gives the result "
+            "product 11 operators x 14x14 value pairs; programs whose variable names are also names of registered functions (sum, min, max, mul), bound and never bound. Oracle: a reference interpreter written from the property text gives the result "
             "class, the value and the full final context. Non-trivial = distinct program with at least one assignment.")
     assumptions = ["the value of an assignment is None, so `x = y = 3` binds y to 3 and x to None (as the property states)"]
     trusted_extra = ["vlib/props/speceval.py: reference semantics used as oracle"]
@@ -67,6 +67,7 @@ class P:
         self.abstained = 0; self.skipped = 0
 
     def generate(self, tier, rng):
+        global NAMES
         PT = progs.prec_table()
         items = []
         for op in SETTERS:
@@ -120,6 +121,24 @@ class P:
                 if rng.random() < 0.8: ctx[nm] = ("var", rng.choice(VALS[:6] + VALS[12:] if rng.random() < 0.85 else VALS))
             stmts = [rnd_stmt(rng) for _ in range(rng.randint(1, 8))]
             items.append(self.mk(stmts, ctx, PT))
+        # variable names that are also the names of REGISTERED functions (`sum`, `min`, `max`, `mul`): a name is a variable
+        # wherever it is not followed by `(`; never bound it reads None, as a target it is bound like any other name
+        saved = NAMES
+        try:
+            NAMES = ["sum", "min", "max", "mul", "a", "b"]
+            for _ in range(1200 if tier == "quick" else 100000):
+                ctx = {}
+                for nm in NAMES:
+                    if rng.random() < 0.4: ctx[nm] = ("var", rng.choice(VALS[:6] + VALS[12:]))
+                if rng.random() < 0.5:
+                    stmts = [rnd_stmt(rng) for _ in range(rng.randint(1, 5))]
+                else:
+                    stmts = [("bin", rng.choice(SETTERS[:4] + ["=", "="]), ("ref", rng.choice(NAMES)), safe_expr(rng, rng.choice([0, 1, 2]))) for _k in range(rng.randint(1, 4))]
+                    stmts.append(("call", rng.choice(NAMES[:4]), [("ref", nm) for nm in rng.sample(NAMES, 2)]))
+                stmts.append(("list", [("ref", nm) for nm in NAMES]))
+                items.append(self.mk(stmts, ctx, PT))
+        finally:
+            NAMES = saved
         empties = [("EXEC:1:" + hx(""), ([], {}, {})), ("EXEC:1:" + hx("unbound"), ([("ref", "unbound")], {}, {}))]
         return flow.mk_cases("assign", items) + flow.mk_cases("edge", empties)
 
